@@ -3,7 +3,7 @@
 patch=$(readlink -f "$1"); shift
 git -C /repo apply "$patch" || { echo "APPLY FAILED"; exit 2; }
 for p in "$@"; do
-  out=$(/verif/check $p 2>/dev/null); rc=$?
+  out=$(LSVERIF_EVIDENCE_DIR=/verif/target/mut-evidence LSVERIF_REPLAY_DIR=/verif/target/mut-replays /verif/check $p 2>/dev/null); rc=$?
   echo "$out" | cut -c1-260 | head -3
   echo "  -> $p rc=$rc"
 done
